@@ -49,6 +49,7 @@ Inductive op :=
 | DropStale (p : N)                    (* drop_stale_families *)
 | DropFam (p : N)                      (* drop_families *)
 | MarkLlgr (p : N)                     (* mark_llgr_stale: the peer's NO_LLGR paths are deleted *)
+| DropLlgr (p : N)                     (* drop_llgr_stale_families *)
 | SoftReset (p : N)
 | SetPol (n : N)
 | Nhv (a : N).                         (* update_nexthop_validity: walks the shards, no Adj-RIB-In effect *)
@@ -56,7 +57,7 @@ Inductive op :=
 (* atomic steps *)
 (* which paths of a peer a purge selects: the stale ones (drop_stale), all (disconnected),
    the ones carrying the NO_LLGR community (drop_no_llgr, called by mark_llgr_stale) *)
-Inductive pmode := PStale | PAll | PNoLlgr.
+Inductive pmode := PStale | PAll | PNoLlgr | PLlgr.
 (* the attribute blocks of the harness: tokens 4.. carry NO_LLGR *)
 Definition nollgr_tok (tok : N) : bool := 4 <=? tok.
 
@@ -94,6 +95,7 @@ Definition expand (o : op) : list mstep :=
   | DropStale p => [MPurgePrep p; MPurgeShard PStale p 0; MPurgeShard PStale p 1]
   | DropFam p => [MPurgePrep p; MPurgeShard PAll p 0; MPurgeShard PAll p 1]
   | MarkLlgr p => [MPurgePrep p; MPurgeShard PNoLlgr p 0; MPurgeShard PNoLlgr p 1]
+  | DropLlgr p => [MPurgePrep p; MPurgeShard PLlgr p 0; MPurgeShard PLlgr p 1]
   | SoftReset p => [MResetPrep p; MResetShard p 0; MResetShard p 1]
   | SetPol n => [MSetPol n]
   | Nhv a => [MNhvPrep a; MNhvShard a 0; MNhvShard a 1]
@@ -118,6 +120,7 @@ Record glob := {
   g_rib : key -> option (N * bool);    (* attribute token, filtered *)
   g_ssn : key -> N;                    (* which Source (session) of its peer the path came from *)
   g_stale : list (N * N);              (* (peer, session): Sources marked stale *)
+  g_llgr : list (N * N);               (* (peer, session): Sources marked LLGR-stale *)
   g_sess : N -> N;                     (* current session of a peer *)
   g_ph : nat -> N;                     (* subscription slot: 0 unused, 1 in the subscriber list, 2 unsubscribed *)
   g_walk : nat -> N;                   (* shards snapshotted so far by subscription j *)
@@ -129,7 +132,7 @@ Record glob := {
 Record sys := { s_g : glob; s_thr : nat -> thread }.
 
 Definition glob0 : glob :=
-  {| g_keys := []; g_rib := fun _ => None; g_ssn := fun _ => 0; g_stale := []; g_sess := fun _ => 0;
+  {| g_keys := []; g_rib := fun _ => None; g_ssn := fun _ => 0; g_stale := []; g_llgr := []; g_sess := fun _ => 0;
      g_ph := fun _ => 0; g_walk := fun _ => 0; g_pol := 0; g_ctr := fun _ => 0; g_evs := fun _ => [] |}.
 Definition init (progs : list (list op)) : sys :=
   {| s_g := glob0;
@@ -165,6 +168,8 @@ Definition post_val (tok : N) (filtered : bool) : option N := if filtered then N
 Definition peer_has_prefix (g : glob) (k : key) : bool :=
   existsb (fun q => same_prefix q k && match g_rib g q with Some _ => true | None => false end) (g_keys g).
 
+Definition is_llgr (g : glob) (k : key) : bool :=
+  existsb (fun x => (fst x =? k_peer k) && (snd x =? g_ssn g k)) (g_llgr g).
 Definition is_stale (g : glob) (k : key) : bool :=
   existsb (fun x => (fst x =? k_peer k) && (snd x =? g_ssn g k)) (g_stale g).
 
@@ -179,7 +184,7 @@ Definition evk (b : bool) (k : key) (x : option N) : ev := if b then EvPost k x 
 
 Definition with_rib (g : glob) (subs : nat -> bool) (evs : list ev) (keys : list key)
            (rib : key -> option (N * bool)) (ssn : key -> N) (ctr : N -> N) : glob :=
-  {| g_keys := keys; g_rib := rib; g_ssn := ssn; g_stale := g_stale g; g_sess := g_sess g;
+  {| g_keys := keys; g_rib := rib; g_ssn := ssn; g_stale := g_stale g; g_llgr := g_llgr g; g_sess := g_sess g;
      g_ph := g_ph g; g_walk := g_walk g; g_pol := g_pol g; g_ctr := ctr;
      g_evs := bcast subs (g_evs g) evs |}.
 
@@ -229,19 +234,30 @@ Definition purge_sel (g : glob) (all : pmode) (p s : N) (q : key) : bool :=
   | PAll => true
   | PStale => is_stale g q
   | PNoLlgr => match g_rib g q with Some (tok, _) => nollgr_tok tok | None => false end
+  | PLlgr => is_llgr g q
   end.
+Definition set_llgr (g : glob) (l : list (N * N)) : glob :=
+  {| g_keys := g_keys g; g_rib := g_rib g; g_ssn := g_ssn g; g_stale := g_stale g; g_llgr := l; g_sess := g_sess g;
+     g_ph := g_ph g; g_walk := g_walk g; g_pol := g_pol g; g_ctr := g_ctr g; g_evs := g_evs g |}.
 Definition purge_shard (g : glob) (all : pmode) (p s : N) : glob :=
   let ks := filter (fun q => purge_sel g all p s q && nonnone (g_rib g q)) (g_keys g) in
   let evs := flat_map (fun q => [evk false q None; evk true q None]) ks in
-  with_rib g (live g) (match v with Legacy => [] | Fixed => evs end) (g_keys g)
-    (fun q => if purge_sel g all p s q then None else g_rib g q) (g_ssn g) (g_ctr g).
+  let g1 := with_rib g (live g) (match v with Legacy => [] | Fixed => evs end) (g_keys g)
+              (fun q => if purge_sel g all p s q then None else g_rib g q) (g_ssn g) (g_ctr g) in
+  match all with
+  | PNoLlgr =>
+    (* mark_llgr_stale first marks the Sources of the peer's paths in this shard (restale_llgr) *)
+    set_llgr g1 (map (fun q => (p, g_ssn g q))
+                     (filter (fun q => (k_peer q =? p) && in_shard s q && nonnone (g_rib g q)) (g_keys g)) ++ g_llgr g)
+  | _ => g1
+  end.
 
 (* TableShard::mark_stale for one shard: the Sources of the peer's paths in this
    shard are marked (the mark is shared by all their paths in every shard) *)
 Definition stale_shard (g : glob) (p s : N) : glob :=
   let ks := filter (fun q => (k_peer q =? p) && in_shard s q && nonnone (g_rib g q)) (g_keys g) in
   {| g_keys := g_keys g; g_rib := g_rib g; g_ssn := g_ssn g;
-     g_stale := map (fun q => (p, g_ssn g q)) ks ++ g_stale g; g_sess := g_sess g;
+     g_stale := map (fun q => (p, g_ssn g q)) ks ++ g_stale g; g_llgr := g_llgr g; g_sess := g_sess g;
      g_ph := g_ph g; g_walk := g_walk g; g_pol := g_pol g; g_ctr := g_ctr g; g_evs := g_evs g |}.
 
 (* TableShard::soft_reset_in for one shard (stale paths are skipped) *)
@@ -267,7 +283,7 @@ Definition upd_nat {A} (j : nat) (x : A) (f : nat -> A) : nat -> A := fun i => i
 Definition walk_shard (g : glob) (j : nat) : glob :=
   let s := g_walk g j in
   let ks := filter (fun q => in_shard s q) (g_keys g) in
-  {| g_keys := g_keys g; g_rib := g_rib g; g_ssn := g_ssn g; g_stale := g_stale g; g_sess := g_sess g;
+  {| g_keys := g_keys g; g_rib := g_rib g; g_ssn := g_ssn g; g_stale := g_stale g; g_llgr := g_llgr g; g_sess := g_sess g;
      g_ph := g_ph g; g_walk := upd_nat j (s + 1) (g_walk g); g_pol := g_pol g; g_ctr := g_ctr g;
      g_evs := upd_nat j (g_evs g j ++ walk_evs false (g_rib g) ks ++ walk_evs true (g_rib g) ks ++
                          (if s + 1 =? 2 then [EvEnd] else [])) (g_evs g) |}.
@@ -275,7 +291,7 @@ Definition walk_shard (g : glob) (j : nat) : glob :=
 Definition with_evs (g : glob) (evs : list ev) : glob :=
   with_rib g (live g) evs (g_keys g) (g_rib g) (g_ssn g) (g_ctr g).
 Definition set_ph (g : glob) (j : nat) (x : N) : glob :=
-  {| g_keys := g_keys g; g_rib := g_rib g; g_ssn := g_ssn g; g_stale := g_stale g; g_sess := g_sess g;
+  {| g_keys := g_keys g; g_rib := g_rib g; g_ssn := g_ssn g; g_stale := g_stale g; g_llgr := g_llgr g; g_sess := g_sess g;
      g_ph := upd_nat j x (g_ph g); g_walk := g_walk g; g_pol := g_pol g; g_ctr := g_ctr g; g_evs := g_evs g |}.
 Definition load_locals (g : glob) (t : thread) : thread :=
   {| t_cur := t_cur t; t_ops := t_ops t; t_pol := g_pol g; t_subs := live g |}.
@@ -298,14 +314,14 @@ Definition exec (g : glob) (t : thread) (m : mstep) : glob * thread :=
   | MPeerDownGr p =>
     let g1 := with_rib g (live g) [EvDown p] (g_keys g) (g_rib g) (g_ssn g) (set_ctr p 0 (g_ctr g)) in
     ({| g_keys := g_keys g1; g_rib := g_rib g1; g_ssn := g_ssn g1; g_stale := g_stale g1;
-        g_sess := set_ctr p (g_sess g p + 1) (g_sess g); g_ph := g_ph g1; g_walk := g_walk g1;
+        g_llgr := g_llgr g1; g_sess := set_ctr p (g_sess g p + 1) (g_sess g); g_ph := g_ph g1; g_walk := g_walk g1;
         g_pol := g_pol g1; g_ctr := g_ctr g1; g_evs := g_evs g1 |}, t)
   | MPurgeShard all p s => (purge_shard g all p s, t)
   | MResetPrep _ => (g, load_locals g t)
   | MResetShard p s =>
     (reset_shard g (match v with Legacy => t_subs t | Fixed => live g end) (t_pol t) p s, t)
   | MSetPol n =>
-    ({| g_keys := g_keys g; g_rib := g_rib g; g_ssn := g_ssn g; g_stale := g_stale g; g_sess := g_sess g;
+    ({| g_keys := g_keys g; g_rib := g_rib g; g_ssn := g_ssn g; g_stale := g_stale g; g_llgr := g_llgr g; g_sess := g_sess g;
         g_ph := g_ph g; g_walk := g_walk g; g_pol := n; g_ctr := g_ctr g; g_evs := g_evs g |}, t)
   end.
 
